@@ -48,7 +48,11 @@ func (s *vSub) Input() schema.Scope {
 }
 func (s *vSub) DAG() dgraph.DirectedGraph[*workflow.DAGItem]           { return nil }
 func (s *vSub) OutputSchema() map[string]*schema.StepOutputSchema {
-	return map[string]*schema.StepOutputSchema{"success": schema.NewStepOutputSchema(schema.NewScopeSchema(schema.NewObjectSchema("item", map[string]*schema.PropertySchema{})), nil, false)}
+	// the sub-workflow declares a second output that is not flagged as an error (e.g. "skipped")
+	return map[string]*schema.StepOutputSchema{
+		"success": schema.NewStepOutputSchema(schema.NewScopeSchema(schema.NewObjectSchema("item", map[string]*schema.PropertySchema{})), nil, false),
+		"other":   schema.NewStepOutputSchema(schema.NewScopeSchema(schema.NewObjectSchema("other", map[string]*schema.PropertySchema{})), nil, false),
+	}
 }
 func (s *vSub) Namespaces() map[string]map[string]*schema.ObjectSchema { return nil }
 
